@@ -1,9 +1,9 @@
 // ---- codecs_shared: the byte codecs that BOTH units (codecs, verify_api) need as callees ----
 // Real functions of rln/src/utils.rs and rln/src/protocol.rs, copied byte for byte and VERIFIED in every unit
 // that includes this file (nothing here is assumed in one unit and proved in another).
-// Only the FUNCTIONAL variants live here: each decoder that slices its input without a length check carries
-// the named precondition `short-input-no-panic`; a caller that cannot establish it fails under that clause
-// name.  The `requires true` (no-panic) variants of the same functions are in codecs.rs.in.
+// bytes_le_to_fr and deserialize_proof_values are infallible helpers that slice their input: they carry the honest
+// precondition "input long enough", named `short-input-no-panic`; every call site (the entry points of unit verify_api,
+// the decoders of unit codecs) has to prove it, and a caller that cannot fails under that clause name.
 
 mod color_eyre { pub use super::Report; }
 
@@ -127,3 +127,41 @@ pub open spec fn proof_values_canonical(s: Seq<u8>) -> bool {
         assert(s.subrange(128, n).subrange(0, 32) =~= s.subrange(128, 160));
     }
 //@end
+
+//@fn rln/src/protocol.rs serialize_proof_values
+//@tags C10
+//@ret r
+//@contract
+    ensures r@ == proof_values_bytes(*rln_proof_values),   //# proof-values-layout
+            r@.len() == 160,   //# proof-values-width-160
+//@bodystart
+    proof { lemma_fr_bytes(rln_proof_values.root); lemma_fr_bytes(rln_proof_values.external_nullifier); lemma_fr_bytes(rln_proof_values.x);
+            lemma_fr_bytes(rln_proof_values.y); lemma_fr_bytes(rln_proof_values.nullifier); }
+//@end
+
+//@region roundtrip_shared C10 C13
+// reading the documented encoding of a field element / of the proof values gives the value back, and such an encoding is
+// canonical (below the field order): this is what makes "re-encode and compare" a canonicality check
+pub proof fn lemma_rt_fr_at(s: Seq<u8>, off: int, x: Fr)
+    requires 0 <= off, off + 32 <= s.len(), s.subrange(off, off + 32) == fr_bytes(x)
+    ensures dec_fr(s, off) == x.view(), canonical_at(s, off)
+{ lemma_fr_bytes(x); }
+pub proof fn lemma_rt_proof_values(s: Seq<u8>, v: RLNProofValues)
+    requires starts_with(s, proof_values_bytes(v))
+    ensures s.len() >= 160,
+            dec_fr(s, 0) == v.root.view(), dec_fr(s, 32) == v.external_nullifier.view(), dec_fr(s, 64) == v.x.view(),
+            dec_fr(s, 96) == v.y.view(), dec_fr(s, 128) == v.nullifier.view(),
+            canonical_at(s, 0) && canonical_at(s, 32) && canonical_at(s, 64) && canonical_at(s, 96) && canonical_at(s, 128),
+{
+    lemma_fr_bytes(v.root); lemma_fr_bytes(v.external_nullifier); lemma_fr_bytes(v.x); lemma_fr_bytes(v.y); lemma_fr_bytes(v.nullifier);
+    let e = proof_values_bytes(v);
+    assert(e.len() == 160);
+    assert(s.subrange(0, 32) =~= e.subrange(0, 32));       assert(e.subrange(0, 32) =~= fr_bytes(v.root));
+    assert(s.subrange(32, 64) =~= e.subrange(32, 64));     assert(e.subrange(32, 64) =~= fr_bytes(v.external_nullifier));
+    assert(s.subrange(64, 96) =~= e.subrange(64, 96));     assert(e.subrange(64, 96) =~= fr_bytes(v.x));
+    assert(s.subrange(96, 128) =~= e.subrange(96, 128));   assert(e.subrange(96, 128) =~= fr_bytes(v.y));
+    assert(s.subrange(128, 160) =~= e.subrange(128, 160)); assert(e.subrange(128, 160) =~= fr_bytes(v.nullifier));
+    lemma_rt_fr_at(s, 0, v.root); lemma_rt_fr_at(s, 32, v.external_nullifier); lemma_rt_fr_at(s, 64, v.x);
+    lemma_rt_fr_at(s, 96, v.y); lemma_rt_fr_at(s, 128, v.nullifier);
+}
+//@endregion
